@@ -1778,9 +1778,7 @@ let fold_v2 co sc cs nm c =
         then Z.add c (Zpos (XO (XO (XO (XO (XO XH))))))
         else c))
   else let class0 = co.co_class c in
-       let c0 =
-         if (&&) (negb cs) (Z.eqb class0 cUpper) then co.co_lower c else c
-       in
+       let c0 = if negb cs then co.co_lower c else c in
        (class0, (if nm then co.co_norm c0 else c0))
 
 type p2 = { p2_T : z list; p2_B : z list; p2_H0 : z list; p2_C0 : z list;
